@@ -171,26 +171,26 @@ CHECKS["C14"] = {
 # (DESIGN.md section 7): what each harness additionally drives through the real code on every run.
 # ---------------------------------------------------------------------------------------------------------------
 EXTRA = {
-    "C01": "The moves are also observed through the functions that call them: interval kernels and the enumerated detailed-balance oracle run through structural.compound_step, recorders check what mutation.compound_step / structural.compound_step / _denovo_assembler hand to the moves (inbreeding, the chain's temperature, read counts, allele numbers, move type, exchange partner), chain_swap_step is driven with the draw forced, and pools with more than 127 copies of one haplotype are included. DenovoMCMC.fit is run with a recording _denovo_assembler (reads, counts, allele numbers, inbreeding, sorted temperatures, step probabilities, cache threshold, trace chain by chain) and the assembler loop is checked to hand every sweep the sample's reads and log(#haplotypes).",
-    "C02": "Pooled ploidies (16-40 copies), int32 / unsorted genotypes, panels of up to 300 haplotypes, hard reads and tiny frequencies are generated; the per-sample plumbing observer (harness/plumbing.py) runs mchap call with per-sample ploidy / inbreeding files and asserts that every sample is fit with its own parameters and reads. Wiring: the Python source of compound_step / mcmc_sampler / CallingMCMC.fit runs with recording callees (every copy once per compound step, the sample's reads / counts / inbreeding / frequencies / cache, the trace records what the callee left); user-style priors with 1e-9..1e-30 entries and exact zeros go through call / call-pedigree (only an exact zero removes an allele). Theorems call_compound_step_invariant / call_sampler_invariant lift the per-copy kernels to the shuffled compound step and to the run.",
+    "C01": "The moves are also observed through the functions that call them: interval kernels and the enumerated detailed-balance oracle run through structural.compound_step, recorders check what mutation.compound_step / structural.compound_step / _denovo_assembler hand to the moves (inbreeding, the chain's temperature, read counts, allele numbers, move type, exchange partner), chain_swap_step is driven with the draw forced, and pools with more than 127 copies of one haplotype are included. DenovoMCMC.fit is run with a recording _denovo_assembler (reads, counts, allele numbers, inbreeding, sorted temperatures, step probabilities, cache threshold, trace chain by chain) and the assembler loop is checked to hand every sweep the sample's reads and log(#haplotypes). A ledger of the likelihood each chain carries through the assembler loop; the likelihood handed between the moves of a sweep is that of the current genotype (real moves wrapped); the exchange step's decision threshold is pinned with uniforms just below / above the acceptance probability.",
+    "C02": "Pooled ploidies (16-40 copies), int32 / unsorted genotypes, panels of up to 300 haplotypes, hard reads and tiny frequencies are generated; the per-sample plumbing observer (harness/plumbing.py) runs mchap call with per-sample ploidy / inbreeding files and asserts that every sample is fit with its own parameters and reads. Wiring: the Python source of compound_step / mcmc_sampler / CallingMCMC.fit runs with recording callees (every copy once per compound step, the sample's reads / counts / inbreeding / frequencies / cache, the trace records what the callee left); user-style priors with 1e-9..1e-30 entries and exact zeros go through call / call-pedigree (only an exact zero removes an allele). Theorems call_compound_step_invariant / call_sampler_invariant lift the per-copy kernels to the shuffled compound step and to the run. Tiny non-zero inbreeding coefficients (1e-3..1e-5); the in-sweep vector stream (every vector used inside a compound step equals the kernel run afresh on the current state) also on panels and pools; Lean model compoundStep against the real step on the observed order and draws.",
     "C03": "An end-to-end oracle compares what mchap call-exact prints (GT, GPM, GP, AFP, ACP, AOP; both code paths; plain, REFMASKED, filtered and --prior-frequencies inputs; per-sample inbreeding files in shuffled order) with the Lean posterior on the reads the program encoded and the prior it reports; the plumbing observer checks the parameters of every exact call.",
-    "C04": "Includes the pedigree wrapper with one cache shared by a family of mixed ploidy, counts up to 1000, hundreds of reads, ploidy up to 128, single-cell NaNs, ndarray / None intervals, and (plumbing observer) that the GL arrays of assemble / call / call-exact are computed from each sample's own reads. genotype_likelihoods (FORMAT/GL, array path of call-exact) is compared entry by entry with the likelihood of that genotype, reads with 0/1 base calls (impossible genotypes) included.",
+    "C04": "Includes the pedigree wrapper with one cache shared by a family of mixed ploidy, counts up to 1000, hundreds of reads, ploidy up to 128, single-cell NaNs, ndarray / None intervals, and (plumbing observer) that the GL arrays of assemble / call / call-exact are computed from each sample's own reads. genotype_likelihoods (FORMAT/GL, array path of call-exact) is compared entry by entry with the likelihood of that genotype, reads with 0/1 base calls (impossible genotypes) included. genotype_likelihoods over spaces of 1365-6435 genotypes.",
     "C05": "Includes pools with dose >= 128 through the callers' dosage buffers, frequency ranges down to 1e-12, F close to 0 and to 1, haplotype spaces up to 2^700, unsorted / int32 genotypes, and (plumbing observer) that every program evaluates the prior with the sample's own inbreeding coefficient.",
-    "C06": "--bam list files (incl. sample<TAB>path selection out of a multi-sample BAM), split multi-allelic / indel / ALT-less --variants records, extraction through LocusPrior (call programs), soft-masked references, gzipped / commented / 3-column BED, CRAM, substring sample names, several alignments per read name with qualities.",
-    "C07": "Glue streams: every optional field requested alone, panels of 130-200 haplotypes through call / call-pedigree, NOA and many-ALT assemble outputs fed to the callers, --filter-input-haplotypes, ploidies 1/3/8 and integer --ploidy, cohort-wide ploidy files, bam lists, pools, read-group ID, a pedigree member without BAM, BED3 / gzipped BED / --region / POS=1 / two contigs.",
-    "C08": "Boundary seeds (0, 2^32-2), pedigree fits, core counts that do not divide the number of loci, overlapping / repeated targets, sampler options on the command line, fresh-process baselines for every program, faults: worker exception, worker killed by a signal (open finding K8), closed pipe / full disk on stdout, malformed haplotype record. One haplotype record carries REFMASKED next to a record of equal allele count; the unflagged records are run alone before the interpreter has read any masked record (module-level state set by the first masked record would otherwise look the same in every later run) and in a fresh process.",
-    "C09": "One cache shared by families of mixed ploidy (key type probed, not assumed), permuted read rows and samples without reads, keys near 2^53 / 2^63, jitted assemble sampler with cache overflow, jitted call sampler cache on / off, CLI cache threshold toggle, swap-step cache audit on every parental pair. One CallingMCMC / DenovoMCMC object is fitted to two samples in a row: trace likelihoods recomputed for the second sample and the run compared with a new object.",
-    "C10": "The per-sample plumbing observer runs all four programs with shuffled per-sample files (ploidy, inbreeding, temperatures, gamete files) and non-default values of every sampler option and asserts that each model is fit with that sample's own parameters and reads and that every option reaches its consumer; --report fields are compared per allele sequence; samples without reads, odd ploidies, bam list files, read-group ID, pools named after a member. One dataset runs with --mcmc-seed 0.",
-    "C11": "Both lookup tables are compared entry by entry with exact values; count_unique_genotypes (sizes every G-length array) is included; int8/16/32 genotype arrays; enumerations beyond the table edge; ploidy 10-13 with 46-110 alleles against an independent VCF rank.",
-    "C12": "Pipelines with NOA / AF0 records, --prior-frequencies AFP and --filter-input-haplotypes on real assemble output (record count in == out), use_snvpos, loci of 300 bases with >= 130 SNV columns / ALTs, five-symbol columns, two contigs, overlapping targets, --region.",
-    "C13": "Printed GT / AFP / AOP / GP of every sample are compared with what the recorded posteriors imply (incl. no mass on a masked reference); thresholds 0, default, 0.95, 1.0; samples without reads; 1-5 samples; >= 10 ALT alleles; seven --report subsets. Label dictionaries with allele numbers 120..40000 (beyond a byte) with a direct GT oracle.",
-    "C14": "Program-level part: the traces handed to assemble / call / call-pedigree are recorded (or substituted by synthetic traces whose chains agree / disagree inside or outside the burn-in) and printed GT / GPM / SPM / MCI / AFP / GP are recomputed from the trace minus exactly --mcmc-burn steps per chain, for --mcmc-chains 1-3 and several thresholds; long traces (> 255 repeats), ploidy 3-4 large panels, relabel summaries, wide pedigree traces.",
+    "C06": "--bam list files (incl. sample<TAB>path selection out of a multi-sample BAM), split multi-allelic / indel / ALT-less --variants records, extraction through LocusPrior (call programs), soft-masked references, gzipped / commented / 3-column BED, CRAM, substring sample names, several alignments per read name with qualities. A second --variants record of a position whose REF is not the reference base must be reported, never merged.",
+    "C07": "Glue streams: every optional field requested alone, panels of 130-200 haplotypes through call / call-pedigree, NOA and many-ALT assemble outputs fed to the callers, --filter-input-haplotypes, ploidies 1/3/8 and integer --ploidy, cohort-wide ploidy files, bam lists, pools, read-group ID, a pedigree member without BAM, BED3 / gzipped BED / --region / POS=1 / two contigs. A locus without reads in any sample (synthetic feature nodepth_all).",
+    "C08": "Boundary seeds (0, 2^32-2), pedigree fits, core counts that do not divide the number of loci, overlapping / repeated targets, sampler options on the command line, fresh-process baselines for every program, faults: worker exception, worker killed by a signal (open finding K8), closed pipe / full disk on stdout, malformed haplotype record. One haplotype record carries REFMASKED next to a record of equal allele count; the unflagged records are run alone before the interpreter has read any masked record (module-level state set by the first masked record would otherwise look the same in every later run) and in a fresh process. call-exact with 30 pools and GP + GL (record lines of 10^5 bytes) on four cores into a pipe that is read late.",
+    "C09": "One cache shared by families of mixed ploidy (key type probed, not assumed), permuted read rows and samples without reads, keys near 2^53 / 2^63, jitted assemble sampler with cache overflow, jitted call sampler cache on / off, CLI cache threshold toggle, swap-step cache audit on every parental pair. One CallingMCMC / DenovoMCMC object is fitted to two samples in a row: trace likelihoods recomputed for the second sample and the run compared with a new object. Every chain of small ladders incl. ladders starting at inverse temperature 0; deep samples with the homozygosity screen on (carried likelihood = likelihood over the non-fixed positions with the sample's counts); call sampler with a single haplotype.",
+    "C10": "The per-sample plumbing observer runs all four programs with shuffled per-sample files (ploidy, inbreeding, temperatures, gamete files) and non-default values of every sampler option and asserts that each model is fit with that sample's own parameters and reads and that every option reaches its consumer; --report fields are compared per allele sequence; samples without reads, odd ploidies, bam list files, read-group ID, pools named after a member. One dataset runs with --mcmc-seed 0. A dataset with a locus without reads in any sample, samples of equal ploidy and a per-sample inbreeding file.",
+    "C11": "Both lookup tables are compared entry by entry with exact values; count_unique_genotypes (sizes every G-length array) is included; int8/16/32 genotype arrays; enumerations beyond the table edge; ploidy 10-13 with 46-110 alleles against an independent VCF rank. genotype_likelihoods order over > 1024 genotypes; posterior_as_array on int16 / int32 / int64 genotypes over spaces above 32767.",
+    "C12": "Pipelines with NOA / AF0 records, --prior-frequencies AFP and --filter-input-haplotypes on real assemble output (record count in == out), use_snvpos, loci of 300 bases with >= 130 SNV columns / ALTs, five-symbol columns, two contigs, overlapping targets, --region. Variant records on the bases next to every target with an SNVPOS oracle; call-exact with a core count that does not divide the records.",
+    "C13": "Printed GT / AFP / AOP / GP of every sample are compared with what the recorded posteriors imply (incl. no mass on a masked reference); thresholds 0, default, 0.95, 1.0; samples without reads; 1-5 samples; >= 10 ALT alleles; seven --report subsets. Label dictionaries with allele numbers 120..40000 (beyond a byte) with a direct GT oracle. Genotypes stored in arbitrary haplotype order; very shallow data at threshold 1.0 (NOA + REFMASKED records).",
+    "C14": "Program-level part: the traces handed to assemble / call / call-pedigree are recorded (or substituted by synthetic traces whose chains agree / disagree inside or outside the burn-in) and printed GT / GPM / SPM / MCI / AFP / GP are recomputed from the trace minus exactly --mcmc-burn steps per chain, for --mcmc-chains 1-3 and several thresholds; long traces (> 255 repeats), ploidy 3-4 large panels, relabel summaries, wide pedigree traces. Traces over 33-130 positions and five symbols (haplotypes differing in the leading / last columns only).",
     "C15": "Whole DenovoMCMC.fit iterations with recorders (every (haplotype, site) pair once per step and temperature with the site's own allele number, random_breaks on the non-fixed SNVs, intervals partition), loci of 130-300 SNVs, inbreeding on both sides, thresholds 0 .. 1, the command-line value of --mcmc-fix-homozygous reaching the sampler (option plumbing).",
-    "C16": "Report lists with and without GP (both call-exact branches), mixed-ploidy pedigrees with a member without BAM, priors down to 1e-42 and nan, --prior-frequencies AFP and filters on AFP / AC applied to real assemble output (REFMASKED, NOA, monomorphic records), zero-read samples, --inbreeding, up to 257 alleles.",
-    "C17": "PEDERR: PedigreeAllelesMultiTrace.incongruence on int16 traces against the zero-error pmf; call-pedigree array construction from the --sample-parents / --gamete-ploidy / --gamete-ibd / --gamete-error files (shuffled rows, members without BAM, scalar / file forms) against an independent parse; lambda = 1 (open finding K7), shuffled progeny, reused scratch arrays, unreduced / odd / octoploid configurations, one-sided zero errors.",
-    "C18": "Pedigrees whose unbalanced / clonal / triploid individuals are parents, permuted indices, pair members with further progeny, random pedigrees; accepted and rejected branch of the swap with the draw forced, jitted swap on int16 / -1 padded states with the dict cache, allele_step / sample_step / compound_step visit order, one-sided zero errors, lambda = 1, single-haplotype panels, members without reads. Sampler wiring: mcmc_sampler's source runs with recording moves (one compound step, then one exchange per pair of known parents; blanket = the two parents and each individual with one of them as a parent, once each - theorems pairPrior_of_listing / pairPrior_of_repeated; the call's own pedigree / parameters / reads), sample_step / compound_step pass their arguments on unchanged, PedigreeCallingMCMC.fit hands over the model's fields and log prior frequencies; ped_iteration_invariant lifts the per-move theorems to an iteration and a run.",
+    "C16": "Report lists with and without GP (both call-exact branches), mixed-ploidy pedigrees with a member without BAM, priors down to 1e-42 and nan, --prior-frequencies AFP and filters on AFP / AC applied to real assemble output (REFMASKED, NOA, monomorphic records), zero-read samples, --inbreeding, up to 257 alleles. Every third generated record puts the zero prior on the allele the samples carry, call always runs with a frequency tag and F > 0; plumbing observer on call / call-exact / call-pedigree.",
+    "C17": "PEDERR: PedigreeAllelesMultiTrace.incongruence on int16 traces against the zero-error pmf; call-pedigree array construction from the --sample-parents / --gamete-ploidy / --gamete-ibd / --gamete-error files (shuffled rows, members without BAM, scalar / file forms) against an independent parse; lambda = 1 (open finding K7), shuffled progeny, reused scratch arrays, unreduced / odd / octoploid configurations, one-sided zero errors. PedigreeCallingMCMC.fit runs the sampler with the inheritance parameters given (exact zeros and ones included).",
+    "C18": "Pedigrees whose unbalanced / clonal / triploid individuals are parents, permuted indices, pair members with further progeny, random pedigrees; accepted and rejected branch of the swap with the draw forced, jitted swap on int16 / -1 padded states with the dict cache, allele_step / sample_step / compound_step visit order, one-sided zero errors, lambda = 1, single-haplotype panels, members without reads. Sampler wiring: mcmc_sampler's source runs with recording moves (one compound step, then one exchange per pair of known parents; blanket = the two parents and each individual with one of them as a parent, once each - theorems pairPrior_of_listing / pairPrior_of_repeated; the call's own pedigree / parameters / reads), sample_step / compound_step pass their arguments on unchanged, PedigreeCallingMCMC.fit hands over the model's fields and log prior frequencies; ped_iteration_invariant lifts the per-move theorems to an iteration and a run. Inside a sweep every vector used equals the Gibbs / MH vector of the state at that moment (sweep functions as plain Python, vector functions wrapped); deep pedigrees with a mislabelled parent (log-domain oracles).",
     "C19": "Several filter flags at once, several read groups / --read-group-field ID, numeric contig names, commented / 3-column BED, --min-ind 1..n with pairwise distinct thresholds, fixed differences and reference-fails sites, depth beyond 8000, bam list files, regions at contig ends, reads without qualities. Targets nested in or overlapping the previous one (a position in k targets may be reported up to k times, identically).",
-    "C20": "Alphabet ACGTN*, NOA / partial / all-missing genotypes, acp-dot / afp-dot shapes, outputs of runs with priors / filters / pools / call-pedigree on two contigs, gzipped and header-only inputs, up to 36 samples and ploidy 64.",
+    "C20": "Alphabet ACGTN*, NOA / partial / all-missing genotypes, acp-dot / afp-dot shapes, outputs of runs with priors / filters / pools / call-pedigree on two contigs, gzipped and header-only inputs, up to 36 samples and ploidy 64. Unusual sample names (REF, ALT, POS, numbers, punctuation).",
 }
 for _p, _t in EXTRA.items():
     CHECKS[_p]["text"] = CHECKS[_p]["text"] + " Correspondence streams: " + _t
